@@ -32,7 +32,9 @@ var c05Pages = []string{
 	`<p>alpha beta</p><blockquote class="twitter-tweet" data-zzk="zq9"><p data-zzk="zq9">tweet text <span data-zzk="zq9">here</span></p><script>var w=1</script><a href="https://twitter.com/u/status/123" data-zzk="zq9">date</a></blockquote>`,
 	// 8 rendered tweet iframe
 	`<p>alpha beta</p><iframe src="https://platform.twitter.com/embed/x" data-tweet-id="123" data-zzk="zq9"></iframe>`,
-	// 9 figure without caption, picture
+	// 9 standalone picture, image inside a span
+	`<p>alpha beta</p><picture data-zzk="zq9"><source srcset="s.png 1x" data-zzk="zq9"><img src="p.png" data-zzk="zq9"></picture><span data-zzk="zq9"><img src="q.png" data-zzk="zq9"></span>`,
+	// 10 figure without caption, picture
 	`<p>alpha beta</p><figure data-zzk="zq9"><picture data-zzk="zq9"><source srcset="s.png 1x" data-zzk="zq9"><img src="p.png" data-zzk="zq9"></picture></figure>`,
 }
 
